@@ -27,7 +27,7 @@ COMPONENTS = {"real": ["ECAgent.Core.Environment.get_agents / get_random_agent /
                        "Agent.has_component", "Model.random", "SpaceWorld (some runs)"],
               "stub": ["component classes and agents are harness-defined; global random / numpy.random are perturbed"]}
 PROBES = ["tag_zero_filter", "template_and_tag", "nobody_matches", "partial_template_match", "returned_list_mutated",
-          "reach_all_members", "same_seed_repeat", "type_nobody_has", "spatial_world", "default_tag_agent", "retag_while_resident", "model_lifecycle_op", "subclass_component_only", "agent_is_an_environment", "ops_from_inside_a_timestep"]
+          "reach_all_members", "same_seed_repeat", "type_nobody_has", "spatial_world", "default_tag_agent", "retag_while_resident", "model_lifecycle_op", "subclass_component_only", "agent_is_an_environment", "ops_from_inside_a_timestep", "agent_class_with_class_components"]
 TECHNIQUE = "deterministic simulation: filter queries inside seeded add/remove histories vs a list-comprehension reference; bounded reachability over reseeded model generators; ambient RNG perturbation between picks"
 LEVEL_TEXT = ("Seeded search over populations, histories, templates and tag filters; every listing must equal the reference filter "
               "(identity, joining order, fresh list), every pick must be a member, every shuffle a permutation, nothing may "
@@ -65,20 +65,29 @@ class T5(T0):          # a subclass of T0: carrying T5 is NOT carrying T0 (compo
 
 
 TYPES = [T0, T1, T2, T3, T4]
-TAGS = [None, 0, 1, 2, 7]
+
+
+class Pack(Agent):
+    """An agent class with CLASS components T0 and T1: a template asks what the agent itself carries, not what its class has."""
+TAGS = [None, 0, 1, 2, 7, 1001, 2 ** 70]      # small ints are shared objects in CPython; the large ones are not
+
+
+def fresh(tag):
+    """An equal but DISTINCT int object (what a tag parsed from a file or computed elsewhere is): tags compare by value."""
+    return int(str(tag)) if isinstance(tag, int) and not isinstance(tag, bool) else tag
 
 
 def gen_query(rng):
     n = rng.choice([0, 0, 1, 1, 2, 2, 3])
     tmpl = [rng.choice([0, 1, 2, 3, 3, 4 if rng.random() < 0.3 else 0]) for _ in range(n)]
-    tag = rng.choice(["absent", "absent", 0, 0, 1, 7])
+    tag = rng.choice(["absent", "absent", 0, 0, 1, 7, 1001, 2 ** 70])
     return tmpl, tag
 
 
 def generate(rng, tier):
     pool = []
     for i in range(rng.randint(1, 16 if tier == "thorough" else 10)):
-        pool.append({"id": f"a{i}", "comps": sorted(rng.sample(range(4), rng.randint(0, 4))), "tag": rng.choice([0, 1, 2, 3, 4]),
+        pool.append({"id": f"a{i}", "comps": sorted(rng.sample(range(4), rng.randint(0, 4))), "tag": rng.choice([0, 1, 2, 3, 4, 5, 5, 6]),
                      "sub": rng.random() < 0.2})
     ops = []
     for _ in range(rng.randint(0, 5)):
@@ -90,7 +99,7 @@ def generate(rng, tier):
         elif r < 0.32:
             ops.append({"op": "remove", "k": rng.randrange(len(pool))})
         elif r < 0.37:
-            ops.append({"op": "retag", "k": rng.randrange(len(pool)), "tag": rng.choice([0, 1, 2, 7])})
+            ops.append({"op": "retag", "k": rng.randrange(len(pool)), "tag": rng.choice([0, 1, 2, 7, 1001])})
         elif r < 0.385:
             ops.append({"op": "lifecycle", "what": rng.choice(["step", "complete"])})
         else:
@@ -110,6 +119,10 @@ def generate(rng, tier):
         ops.insert(j_, {"op": "leave_step"})
         ops.insert(i_, {"op": "enter_step"})
     out = {"pool": pool, "ops": ops, "seed": rng.randint(0, 10 ** 6), "world": rng.choice(["plain", "plain", "plain", "space"])}
+    if rng.random() < 0.2:
+        for p_ in pool:
+            if rng.random() < 0.4:
+                p_["pack"] = True
     if rng.random() < 0.3:      # some agents are environments themselves (empty - hence falsy - or inhabited)
         for p_ in pool:
             if rng.random() < 0.3:
@@ -144,7 +157,14 @@ def execute(sc, ctx):
                 a.tag = tag
             ctx.probe("agent_is_an_environment")
         else:
-            a = Agent(spec["id"], m) if tag is None else Agent(spec["id"], m, tag=tag)
+            cls = Agent
+            if spec.get("pack"):
+                cls = Pack
+                ctx.probe("agent_class_with_class_components")
+                for T in (T0, T1):
+                    if not Pack.has_class_component(T):
+                        Pack.add_class_component(T(Pack, m))
+            a = cls(spec["id"], m) if tag is None else cls(spec["id"], m, tag=tag)
         if tag is None:
             ctx.probe("default_tag_agent")
         for c in spec["comps"]:
@@ -162,7 +182,7 @@ def execute(sc, ctx):
         return out
 
     def args(tmpl, tag):
-        return [TYPES[t % 5] for t in tmpl], ({} if tag == "absent" else {"tag": tag})
+        return [TYPES[t % 5] for t in tmpl], ({} if tag == "absent" else {"tag": fresh(tag)})
 
     def same(got, want):
         return len(got) == len(want) and all(x is y for x, y in zip(got, want))
@@ -212,7 +232,7 @@ def execute(sc, ctx):
             spec = pool[op["k"] % len(pool)]
             hit = [a for a in residents if a.id == spec["id"]]
             if hit:
-                hit[0].tag = op["tag"]       # documented: tags may be assigned after initialisation
+                hit[0].tag = fresh(op["tag"])       # documented: tags may be assigned after initialisation
                 ctx.probe("retag_while_resident")
                 ctx.event("retag", spec["id"], op["tag"])
             continue
